@@ -5,8 +5,116 @@ Require Import MV.Model.Options MV.Model.Identity MV.Spec.OptionsSpec MV.Proofs.
 Open Scope Z_scope.
 
 Definition wf_opts (s : ostate) : Prop := wfv (VDict (og s)) /\ nofs (VDict (og s)).
+Definition inf_wf (v : inf_val) : Prop := match v with InfSet l => NoDup l | InfOne _ => True end.
+(* the options are values Python can build; a Feature-valued in_features is kept apart from the rest of the child group;
+   a frozenset holds no Feature twice *)
 Definition wf_feat (a : feat) : Prop :=
-  wf_opts (f_opt a) /\ match f_child a with Some c => wf_opts c | None => True end.
+  wf_opts (f_opt a) /\
+  match f_child a with
+  | Some c => wf_opts c /\ match f_child_inf a with
+                           | Some (_, v) => kmem k_in_features (dkeys (og c)) = false /\ inf_wf v
+                           | None => True
+                           end
+  | None => True
+  end.
+(* known-defect domain: the Feature-valued in_features sits in the CONTEXT of the child options *)
+Definition kf_child_ctx_inf (a : feat) : bool :=
+  match f_child_inf a with Some (InContext, _) => true | _ => false end.
+
+(* ---------- sorted(names) does not depend on the order ---------- *)
+Lemma sinsert_comm : forall l a b, sinsert a (sinsert b l) = sinsert b (sinsert a l).
+Proof.
+  assert (Hbase : forall a b (r : list string),
+            (if String.leb a b then a :: b :: r else b :: a :: r) = (if String.leb b a then b :: a :: r else a :: b :: r)).
+  { intros a b r. destruct (String.leb a b) eqn:E1, (String.leb b a) eqn:E2; try reflexivity.
+    - rewrite (String.leb_antisym _ _ E1 E2). reflexivity.
+    - destruct (String.leb_total a b); congruence. }
+  induction l as [|x t IH]; intros a b.
+  - cbn. apply Hbase.
+  - cbn. destruct (String.leb b x) eqn:Ebx, (String.leb a x) eqn:Eax; cbn; rewrite ?Ebx, ?Eax.
+    + apply Hbase.
+    + destruct (String.leb a b) eqn:E1; [|reflexivity]. rewrite (str_leb_trans _ _ _ E1 Ebx) in Eax. discriminate.
+    + destruct (String.leb b a) eqn:E2; [|reflexivity]. rewrite (str_leb_trans _ _ _ E2 Eax) in Ebx. discriminate.
+    + rewrite IH. reflexivity.
+Qed.
+
+Lemma ssort_perm : forall l l', Permutation l l' -> ssort l = ssort l'.
+Proof.
+  intros l l' H. induction H; cbn.
+  - reflexivity.
+  - fold (ssort l) (ssort l'). rewrite IHPermutation. reflexivity.
+  - apply sinsert_comm.
+  - congruence.
+Qed.
+
+Lemma elem_eqb_eq : forall a b, elem_eqb a b = true <-> a = b.
+Proof.
+  intros [n1 r1] [n2 r2]. unfold elem_eqb. cbn. rewrite andb_true_iff, String.eqb_eq, Nat.eqb_eq.
+  split; [intros [-> ->]; reflexivity | intros H; injection H; auto].
+Qed.
+
+(* equal frozensets of Features (whatever their iteration orders), equal Features: same replacement value *)
+Lemma inf_rewrite_eq : forall x y, inf_wf x -> inf_wf y -> inf_eq x y = true -> inf_rewrite x = inf_rewrite y.
+Proof.
+  intros [a|a] [b|b] Hx Hy H; cbn in *; try discriminate.
+  - apply andb_true_iff in H. destruct H as [Hl Hall]. apply Nat.eqb_eq in Hl.
+    assert (Hincl : incl a b).
+    { intros e He. rewrite forallb_forall in Hall. specialize (Hall e He). apply existsb_exists in Hall.
+      destruct Hall as (e' & He' & Hee). apply elem_eqb_eq in Hee. subst e'. exact He'. }
+    assert (Hp : Permutation a b).
+    { apply NoDup_Permutation; [exact Hx | exact Hy|]. intros e. split; [apply Hincl|].
+      apply (NoDup_length_incl Hx); [rewrite Hl; apply le_n | exact Hincl]. }
+    rewrite (ssort_perm _ _ (Permutation_map fst Hp)). reflexivity.
+  - apply elem_eqb_eq in H. subst b. reflexivity.
+Qed.
+
+Lemma inf_rewrite_refl : forall x, py_eq (inf_rewrite x) (inf_rewrite x) = true.
+Proof.
+  intros [a|a]; cbn; [|apply String.eqb_refl]. induction (ssort (map fst a)) as [|s t IH]; cbn; [reflexivity|].
+  rewrite String.eqb_refl. exact IH.
+Qed.
+
+(* {**a, k: v} == {**b, k: v'} when a == b, v == v' and k is a new key on both sides *)
+Lemma find_key_none : forall k (d : dict), kmem k (dkeys d) = false -> find (fun kv' => key_eqb k (fst kv')) d = None.
+Proof.
+  intros k d; induction d as [|[k' v] t IH]; cbn; intros H; [reflexivity|].
+  unfold kmem in H. cbn in H. apply orb_false_elim in H. destruct H as [H1 H2]. rewrite H1. apply IH. exact H2.
+Qed.
+Lemma find_app_l : forall A (p : A -> bool) l1 l2 x, find p l1 = Some x -> find p (l1 ++ l2) = Some x.
+Proof. intros A p l1 l2 x; induction l1 as [|y t IH]; cbn; [discriminate|]. destruct (p y); auto. Qed.
+Lemma find_app_r : forall A (p : A -> bool) l1 l2, find p l1 = None -> find p (l1 ++ l2) = find p l2.
+Proof. intros A p l1 l2; induction l1 as [|y t IH]; cbn; [reflexivity|]. destruct (p y); [discriminate | auto]. Qed.
+
+Lemma py_eq_dict_snoc : forall (a b : dict) k v v',
+  py_eq (VDict a) (VDict b) = true -> kmem k (dkeys b) = false -> py_eq v v' = true ->
+  py_eq (VDict (a ++ [(k, v)])) (VDict (b ++ [(k, v')])) = true.
+Proof.
+  intros a b k v v' H Hk Hv. cbn [py_eq] in *. apply andb_true_iff in H. destruct H as [Hl Hall].
+  apply andb_true_iff. split.
+  - rewrite !app_length. cbn. apply Nat.eqb_eq in Hl. rewrite Hl. apply Nat.eqb_refl.
+  - rewrite forallb_app. apply andb_true_iff. split.
+    + apply forallb_forall. intros kv Hin. rewrite forallb_forall in Hall. specialize (Hall kv Hin).
+      destruct (find (fun kv' => key_eqb (fst kv) (fst kv')) b) as [kv'|] eqn:Ef; [|discriminate].
+      rewrite (find_app_l _ _ b [(k, v')] kv' Ef). exact Hall.
+    + cbn. rewrite (find_app_r _ _ b [(k, v')] (find_key_none k b Hk)). cbn. rewrite key_eqb_refl. cbn. rewrite Hv. reflexivity.
+Qed.
+
+Lemma wfv_dict_snoc : forall (a : dict) k v, wfv (VDict a) -> kmem k (dkeys a) = false -> wfv v -> wfv (VDict (a ++ [(k, v)])).
+Proof.
+  unfold wfv. cbn [wfvb]. intros a k v H Hk Hv. apply andb_true_iff in H. destruct H as [H1 H2]. apply andb_true_iff. split.
+  - clear H2. unfold dkeys in *. rewrite map_app. cbn. induction (map fst a) as [|x t IH]; cbn in *; [reflexivity|].
+    apply andb_true_iff in H1. destruct H1 as [Hx Ht]. unfold kmem in Hk. cbn in Hk. apply orb_false_elim in Hk. destruct Hk as [Hk1 Hk2].
+    rewrite (IH Ht Hk2), andb_true_r. apply negb_true_iff. apply negb_true_iff in Hx. rewrite kmem_app, Hx. unfold kmem. cbn.
+    rewrite key_eqb_sym, Hk1. reflexivity.
+  - rewrite forallb_app, H2. cbn. rewrite Hv. reflexivity.
+Qed.
+Lemma nofs_dict_snoc : forall (a : dict) k v, nofs (VDict a) -> nofs v -> nofs (VDict (a ++ [(k, v)])).
+Proof. unfold nofs. cbn [nofsb]. intros a k v H Hv. rewrite forallb_app, H. cbn. rewrite Hv. reflexivity. Qed.
+Lemma inf_rewrite_wf : forall x, wfv (inf_rewrite x) /\ nofs (inf_rewrite x).
+Proof.
+  intros [a|a]; cbn; [|split; reflexivity]. unfold wfv, nofs. cbn.
+  induction (ssort (map fst a)) as [|s t [IH1 IH2]]; cbn; [split; reflexivity | split; assumption].
+Qed.
 
 Lemma opt_eq_hash_l : forall a b ha hb, wf_opts a -> wf_opts b ->
   opt_eq a b = true -> opt_hash_key a = Some ha -> opt_hash_key b = Some hb -> py_eq ha hb = true.
@@ -20,10 +128,36 @@ Proof.
   intros n m. cbn. destruct (Nat.eqb_spec n m) as [->|H]; [apply Z.eqb_refl|]. apply Z.eqb_neq. lia.
 Qed.
 
+(* the group that is hashed for the child options is equal whenever the child options are equal *)
+Lemma child_hash_group_eq : forall ca cb ia ib,
+  wf_opts ca -> wf_opts cb ->
+  match ia with Some (_, v) => kmem k_in_features (dkeys (og ca)) = false /\ inf_wf v | None => True end ->
+  match ib with Some (_, v) => kmem k_in_features (dkeys (og cb)) = false /\ inf_wf v | None => True end ->
+  match ia with Some (InContext, _) => False | _ => True end ->
+  match ib with Some (InContext, _) => False | _ => True end ->
+  child_eq (Some ca) (Some cb) ia ib = true ->
+  py_eq (VDict (child_hash_group ca ia)) (VDict (child_hash_group cb ib)) = true /\
+  wfv (VDict (child_hash_group ca ia)) /\ wfv (VDict (child_hash_group cb ib)) /\
+  nofs (VDict (child_hash_group ca ia)) /\ nofs (VDict (child_hash_group cb ib)).
+Proof.
+  intros ca cb ia ib [Wa Na] [Wb Nb] Ha Hb Ka Kb H. cbn [child_eq] in H. apply andb_true_iff in H. destruct H as [Ho Hi].
+  unfold opt_eq in Ho.
+  destruct ia as [[[|] va]|], ib as [[[|] vb]|]; try contradiction; cbn [group_inf] in Hi; try discriminate; cbn [child_hash_group].
+  - destruct Ha as [Ha1 Ha2], Hb as [Hb1 Hb2]. rewrite (inf_rewrite_eq va vb Ha2 Hb2 Hi).
+    destruct (inf_rewrite_wf vb) as [W N]. repeat split.
+    + apply py_eq_dict_snoc; [exact Ho | exact Hb1 | apply inf_rewrite_refl].
+    + apply wfv_dict_snoc; assumption.
+    + apply wfv_dict_snoc; assumption.
+    + apply nofs_dict_snoc; assumption.
+    + apply nofs_dict_snoc; assumption.
+  - repeat split; assumption.
+Qed.
+
 Lemma feat_eq_hash_l : forall a b ha hb, wf_feat a -> wf_feat b ->
+  kf_child_ctx_inf a = false -> kf_child_ctx_inf b = false ->
   feat_eq a b = Some true -> feat_hkey a = Some ha -> feat_hkey b = Some hb -> py_eq ha hb = true.
 Proof.
-  intros a b ha hb [Hwa Hca] [Hwb Hcb] Heq Ha Hb. unfold feat_eq in Heq.
+  intros a b ha hb [Hwa Hca] [Hwb Hcb] Ka Kb Heq Ha Hb. unfold feat_eq in Heq.
   destruct (String.eqb (f_name a) (f_name b)) eqn:En; cbn [negb] in Heq; [|discriminate].
   destruct (opt_eq (f_opt a) (f_opt b)) eqn:Eo; cbn [negb] in Heq; [|discriminate].
   destruct (py_eq (VDict (oc (f_opt a))) (VDict (oc (f_opt b)))); cbn [negb] in Heq; [|discriminate].
@@ -36,13 +170,38 @@ Proof.
   pose proof (opt_eq_hash_l _ _ _ _ Hwa Hwb Eo Eha Ehb) as Ho.
   assert (Hdom : py_eq (opt_val VStr (f_domain a)) (opt_val VStr (f_domain b)) = true).
   { destruct (f_domain a), (f_domain b); cbn in Ed; try discriminate; [injection Ed as Ed; exact Ed | reflexivity]. }
-  destruct (f_child a) as [ca|] eqn:Eca, (f_child b) as [cb|] eqn:Ecb; cbn in Hch; try discriminate.
-  - destruct (opt_hash_key ca) as [hca|] eqn:E1; [|discriminate]. destruct (opt_hash_key cb) as [hcb|] eqn:E2; [|discriminate].
+  unfold kf_child_ctx_inf in Ka, Kb.
+  destruct (f_child a) as [ca|] eqn:Eca, (f_child b) as [cb|] eqn:Ecb; try (cbn in Hch; discriminate).
+  - destruct Hca as [Wca Ia], Hcb as [Wcb Ib].
+    destruct (hash_key (VDict (child_hash_group ca (f_child_inf a)))) as [hca|] eqn:E1; [|discriminate].
+    destruct (hash_key (VDict (child_hash_group cb (f_child_inf b)))) as [hcb|] eqn:E2; [|discriminate].
     injection Ha as <-. injection Hb as <-.
-    pose proof (opt_eq_hash_l _ _ _ _ Hca Hcb Hch E1 E2) as Hc.
+    assert (Kca : match f_child_inf a with Some (InContext, _) => False | _ => True end)
+      by (destruct (f_child_inf a) as [[[|] ?]|]; [exact I | discriminate | exact I]).
+    assert (Kcb : match f_child_inf b with Some (InContext, _) => False | _ => True end)
+      by (destruct (f_child_inf b) as [[[|] ?]|]; [exact I | discriminate | exact I]).
+    assert (Ia' : match f_child_inf a with Some (_, v) => kmem k_in_features (dkeys (og ca)) = false /\ inf_wf v | None => True end)
+      by (destruct (f_child_inf a) as [[? ?]|]; exact Ia).
+    assert (Ib' : match f_child_inf b with Some (_, v) => kmem k_in_features (dkeys (og cb)) = false /\ inf_wf v | None => True end)
+      by (destruct (f_child_inf b) as [[? ?]|]; exact Ib).
+    destruct (child_hash_group_eq ca cb _ _ Wca Wcb Ia' Ib' Kca Kcb Hch) as (Hpe & W1 & W2 & N1 & N2).
+    pose proof (hash_key_respects_eq_l _ _ _ _ W1 W2 N1 N2 Hpe E1 E2) as Hc.
     cbn [py_eq all2]. rewrite En, Ho, Hdom, Hcf, Hdt, Hc. reflexivity.
   - injection Ha as <-. injection Hb as <-. cbn [py_eq all2]. rewrite En, Ho, Hdom, Hcf, Hdt. reflexivity.
 Qed.
+
+(* FULL STATEMENT without the guard kf_child_ctx_inf is refuted: in_features = frozenset({Feature p}) resp. {Feature q}
+   in the CONTEXT of the child options: __eq__ never looks at it, __hash__ copies it into the group *)
+Definition empty_o : ostate := {| og := []; oc := []; opk := [] |}.
+Definition ctx_child (n : string) : feat :=
+  {| f_name := "top"; f_opt := empty_o; f_domain := None; f_cfw := None; f_dtype := None;
+     f_child := Some {| og := [(KStr "x", VInt 1)]; oc := []; opk := [] |};
+     f_child_inf := Some (InContext, InfSet [(n, 0%nat)]) |}.
+Lemma feat_hash_child_context_refuted_l :
+  feat_eq (ctx_child "p") (ctx_child "q") = Some true /\
+  kf_child_ctx_inf (ctx_child "p") = true /\
+  exists ha hb, feat_hkey (ctx_child "p") = Some ha /\ feat_hkey (ctx_child "q") = Some hb /\ py_eq ha hb = false.
+Proof. split; [reflexivity | split; [reflexivity|]]. eexists. eexists. split; [reflexivity | split; reflexivity]. Qed.
 
 Lemma idx_eq_all2 : forall a b, idx_eq a b = true -> all2 py_eq (map VStr a) (map VStr b) = true.
 Proof.
@@ -62,9 +221,10 @@ Proof.
 Qed.
 
 Lemma sf_eq_hash_l : forall a b ha hb, wf_feat (sf_feat a) -> wf_feat (sf_feat b) ->
+  kf_child_ctx_inf (sf_feat a) = false -> kf_child_ctx_inf (sf_feat b) = false ->
   sf_eq a b = Some true -> sf_hkey a = Some ha -> sf_hkey b = Some hb -> py_eq ha hb = true.
 Proof.
-  intros a b ha hb Hwa Hwb Heq Ha Hb. unfold sf_eq in Heq.
+  intros a b ha hb Hwa Hwb Ka Kb Heq Ha Hb. unfold sf_eq in Heq.
   destruct (feat_eq (sf_feat a) (sf_feat b)) as [[|]|] eqn:Ef; try discriminate.
   injection Heq as Heq. apply andb_true_iff in Heq. destruct Heq as [Ht Hr].
   unfold sf_hkey in Ha, Hb.
@@ -72,7 +232,7 @@ Proof.
   destruct (feat_hkey (sf_feat b)) as [hfb|] eqn:E2; [|discriminate].
   destruct (hashable (raw_val (sf_raw a))); [|discriminate]. destruct (hashable (raw_val (sf_raw b))); [|discriminate].
   injection Ha as <-. injection Hb as <-.
-  pose proof (feat_eq_hash_l _ _ _ _ Hwa Hwb Ef E1 E2) as Hf.
+  pose proof (feat_eq_hash_l _ _ _ _ Hwa Hwb Ka Kb Ef E1 E2) as Hf.
   unfold raw_val in *. cbn [py_eq all2] in *. rewrite Hf, Ht, Hr. reflexivity.
 Qed.
 
@@ -91,19 +251,12 @@ Qed.
 (* ... and not otherwise: a list-valued parameter (FilterType.categorical_inclusion takes {"values": [...]}) *)
 Definition wit_feat : feat :=
   {| f_name := "f"; f_opt := {| og := []; oc := []; opk := [] |}; f_domain := None; f_cfw := None; f_dtype := None;
-     f_child := None |}.
+     f_child := None; f_child_inf := None |}.
 Definition wit_filter : option sfilter := sf_make wit_feat "categorical_inclusion" [(KStr "values", VList [VInt 1; VInt 2])].
 Lemma sf_hash_refuted_l : exists f, wit_filter = Some f /\ sf_eq f f = Some true /\ sf_hkey f = None.
 Proof. eexists. split; [reflexivity|]. split; reflexivity. Qed.
 
-(* Feature.__hash__ with child_options[in_features] = frozenset of Features: depends on the iteration order *)
-Lemma infeatures_single_l : forall l l', (List.length l <= 1)%nat -> Permutation l l' ->
-  infeatures_hash_name l = infeatures_hash_name l'.
-Proof.
-  intros l l' Hl Hp. destruct l as [|x [|y t]]; cbn in Hl; try lia.
-  - apply Permutation_nil in Hp. subst. reflexivity.
-  - apply Permutation_length_1_inv in Hp. subst. reflexivity.
-Qed.
-Lemma infeatures_order_refuted_l : exists l l', Permutation l l' /\
-  py_eq (infeatures_hash_name l) (infeatures_hash_name l') = false.
-Proof. exists ["n0"%string; "n3"%string], ["n3"%string; "n0"%string]. split; [apply perm_swap | reflexivity]. Qed.
+(* Feature.__hash__ with child_options[in_features] = frozenset of Features: the replacement value does not depend on
+   the iteration order, for frozensets of any size *)
+Lemma infeatures_order_independent_l : forall l l', Permutation l l' -> inf_rewrite (InfSet l) = inf_rewrite (InfSet l').
+Proof. intros l l' H. cbn. rewrite (ssort_perm _ _ (Permutation_map fst H)). reflexivity. Qed.
